@@ -77,8 +77,12 @@ def _axes_covered(fi: FuncInfo, cs: List[Cond], tol: str, scale: bool) -> Set[in
     cov: Set[int] = set()
 
     def terms_of(gen: ast.AST) -> List[ast.AST]:
-        if isinstance(gen, (ast.GeneratorExp, ast.ListComp)) and len(gen.generators) == 1 and isinstance(gen.generators[0].iter, (ast.Tuple, ast.List)):
-            return list(gen.generators[0].iter.elts)
+        if isinstance(gen, (ast.GeneratorExp, ast.ListComp)) and len(gen.generators) == 1:
+            it = gen.generators[0].iter
+            if isinstance(it, ast.Name):
+                it = expand_locals(fi.node, it, depth=2)  # residual_scales = (M.a, M.e)
+            if isinstance(it, (ast.Tuple, ast.List)):
+                return list(it.elts)
         return []
 
     def scale_cmp(c: ast.AST, holds: bool, subjects: List[ast.AST]) -> None:
@@ -153,7 +157,8 @@ def paste_eligibility(prog: Program) -> List[Instance]:
     for n in walk_own(cp.node):
         if isinstance(n, ast.If) and isinstance(n.test, ast.Call) and call_name(n.test) == "any" and "stol" in names_in(n.test):
             gen = n.test.args[0] if n.test.args else None
-            both = isinstance(gen, ast.GeneratorExp) and isinstance(gen.generators[0].iter, (ast.Tuple, ast.List)) and {short(x) for x in gen.generators[0].iter.elts} == _slot_names(cp, (0, 4))
+            it_ = expand_locals(cp.node, gen.generators[0].iter, depth=2) if isinstance(gen, ast.GeneratorExp) else None
+            both = isinstance(gen, ast.GeneratorExp) and isinstance(it_, (ast.Tuple, ast.List)) and {_slot_of(cp, x) for x in it_.elts} == {0, 4}
             cmp_ok = isinstance(gen, ast.GeneratorExp) and isinstance(gen.elt, ast.Compare) and isinstance(gen.elt.ops[0], (ast.Gt, ast.GtE)) and short(gen.elt.comparators[0]) == "stol"
             out.append(Instance("R-GUARDSEQ", f"{cp.qual}#paste:unit-scale-both-axes", OK if both and cmp_ok else BAD,
                                 "unit-scale test covers sx and sy against stol" if both and cmp_ok else f"`{short(n.test)}` does not test both axes against stol", cp.where(n)))
@@ -200,8 +205,22 @@ def paste_eligibility(prog: Program) -> List[Instance]:
             lin = any(isinstance(e, ast.Compare) and "linear" in short(e) and ((isinstance(e.ops[0], ast.Is) and not p) or (isinstance(e.ops[0], ast.IsNot) and p)) for e, p in cs)
             if not lin:
                 bad.append(f"{short(st)} (not restricted to the same-CRS branch)")
+            splat = [k.value for k in call.keywords if k.arg is None]
             for kw in ("ttol", "stol"):
                 kv = next((k.value for k in call.keywords if k.arg == kw), None)
+                if kv is None and splat:
+                    # **tols: followed one step - a dict literal / dict(...) that maps the name to the parameter of that name
+                    via = False
+                    for sp in splat:
+                        spx = expand_locals(crr.node, sp, depth=2)
+                        if isinstance(spx, ast.Dict):
+                            via = via or any(isinstance(k_, ast.Constant) and k_.value == kw and isinstance(v_, ast.Name) and v_.id == kw for k_, v_ in zip(spx.keys, spx.values))
+                        elif isinstance(spx, ast.Call) and call_name(spx) == "dict":
+                            via = via or any(k_.arg == kw and isinstance(k_.value, ast.Name) and k_.value.id == kw for k_ in spx.keywords)
+                        else:
+                            via = True  # an options object this clause does not read
+                    if via:
+                        continue
                 if not (isinstance(kv, ast.Name) and kv.id == kw):
                     bad.append(f"{short(call)} ({kw} not forwarded as {kw})")
             return True
@@ -500,7 +519,7 @@ def finite_filter(prog: Program) -> List[Instance]:
                         "non-finite points are masked out before the envelope is taken" if ok else "envelope (min/max) is computed without first removing non-finite points: one NaN/inf poisons the region", f.where()))
     # mask must combine both coordinate columns (product / and / all over axis 1)
     if mask_expr is not None:
-        exprs = [mask_expr] + [v for nm in org.deps_names(mask_expr) for _, v in org.defs.get(nm, [])]
+        exprs = [mask_expr, expand_locals(f.node, mask_expr, depth=3, keep={pts})] + [v for nm in org.deps_names(mask_expr) for _, v in org.defs.get(nm, [])]
         both = False
         for v in exprs:
             for x in ast.walk(v):
@@ -535,7 +554,10 @@ def finite_filter(prog: Program) -> List[Instance]:
         t0, thi = ty.tag(c.args[0]), ty.tag(c.args[2])
         seen.append((short(c.args[0]), const_num(c.args[1]), short(c.args[2]), t0, thi))
     ok = len(seen) == 2 and all(lo == 0 and t0 is not None and t0 == thi for _, lo, _, t0, thi in seen) and {t0 for *_, t0, _ in seen} == {"X", "Y"}
-    out.append(Instance("R-GUARDSEQ", f"{f.qual}#finite:clip-to-image", OK if ok else BAD,
+    if not ok and (not seen or any(t0 is None and thi is None for *_, t0, thi in seen)):
+        out.append(Instance("R-GUARDSEQ", f"{f.qual}#finite:clip-to-image", UNDET, f"the final clip is not written as one clip per axis over axis-named values ({[(a, lo, hi) for a, lo, hi, *_ in seen]}): not read", f.where()))
+    else:
+      out.append(Instance("R-GUARDSEQ", f"{f.qual}#finite:clip-to-image", OK if ok else BAD,
                         "x range clipped to [0, width], y range to [0, height]" if ok else f"final clip is {[(a, lo, hi) for a, lo, hi, *_ in seen]}: region can leave the image or axes are mixed", f.where()))
     return out
 
@@ -631,7 +653,15 @@ def snap_affine_guards(prog: Program) -> List[Instance]:
         ok = r is not None and isinstance(r.value, ast.Name) and r.value.id == A
         t = rot.test
         both = isinstance(t, ast.BoolOp) and isinstance(t.op, ast.Or) and all(isinstance(v, ast.Compare) and isinstance(v.ops[0], (ast.Gt, ast.GtE)) and has_call(v, "abs") for v in t.values)
-        out.append(Instance("R-GUARDSEQ", f"{f.qual}#snap:rotation-passthrough", OK if ok and both else BAD,
+        if not both and isinstance(t, ast.Call) and call_name(t) == "any" and t.args and isinstance(t.args[0], (ast.GeneratorExp, ast.ListComp)) and len(t.args[0].generators) == 1:
+            # any(abs(w) > tol for w in (wx, wy)): the same disjunction over both off-diagonal terms
+            g0 = t.args[0]
+            it = g0.generators[0].iter
+            both = isinstance(g0.elt, ast.Compare) and isinstance(g0.elt.ops[0], (ast.Gt, ast.GtE)) and has_call(g0.elt, "abs") and isinstance(it, (ast.Tuple, ast.List)) and {short(e) for e in it.elts} == {inv.get(1), inv.get(3)}
+        status = OK if ok and both else BAD
+        if ok and not both and not has_call(t, "is_affine_st"):
+            status = UNDET  # some other spelling of the test on both off-diagonal terms: not read
+        out.append(Instance("R-GUARDSEQ", f"{f.qual}#snap:rotation-passthrough", status,
                             "rotated/sheared input is returned unchanged" if ok and both else f"rotation test `{short(t)}` / return `{short(r)}` does not pass rotated input through", f.where(rot)))
     for r in (n for n in walk_own(f.node) if isinstance(n, ast.Return) and isinstance(n.value, ast.Call) and call_name(n.value) == "Affine"):
         args = r.value.args
